@@ -222,7 +222,9 @@ func newCheckerInterp(L *Loaded) (*Interp, func() *Obj) {
 	for _, n := range []string{"err", "errExpr", "errExpected"} {
 		in.Models["typechecker.(*Typechecker)."+n] = errm
 	}
-	nilm := func(in *Interp, pkg *packages.Package, call *ast.CallExpr, recv Val, args []Val) (Val, bool) { return NilV{}, true }
+	nilm := func(in *Interp, pkg *packages.Package, call *ast.CallExpr, recv Val, args []Val) (Val, bool) {
+		return NilV{}, true
+	}
 	in.Models["typechecker.(*Typechecker).findOverload"] = nilm
 	in.Models["typechecker.(*Typechecker).findOverloadCast"] = nilm
 	in.Models["typechecker.IsPublicType"] = func(in *Interp, pkg *packages.Package, call *ast.CallExpr, recv Val, args []Val) (Val, bool) {
@@ -585,13 +587,13 @@ type CellTables struct {
 	L       *Loaded
 	Classes []*DT
 	// checker
-	Unary   map[string]*ChkCell
-	Binary  map[string]*ChkCell
-	Ternary map[string]*ChkCell
-	Cast    map[string]*ChkCell
+	Unary                      map[string]*ChkCell
+	Binary                     map[string]*ChkCell
+	Ternary                    map[string]*ChkCell
+	Cast                       map[string]*ChkCell
 	keysU, keysB, keysT, keysC []string
-	coords  map[string][]*DT
-	ops     map[string]opInfo
+	coords                     map[string][]*DT
+	ops                        map[string]opInfo
 }
 
 func computeCheckerTables(L *Loaded, tier string) *CellTables {
